@@ -28,6 +28,9 @@ func checkC10(c *Ctx) {
 		"PublicKey":  {models.SececPkg + ".newPublicKeyFromPoint"},
 	})
 	c10Accessors(c, prog)
+	// the fourth way to obtain a PublicKey: the SubjectPublicKeyInfo parser must hold exactly what NewPublicKey accepts
+	// (rule C12-5; a parser that builds the key object itself would bypass the identity / validity tests of the constructor)
+	c12ASN1PublicKey(c, prog)
 	c.R.Explanation = "ECDH, the key constructors and the key accessors are abstractly interpreted against the scalar-ring / point-module specifications: ECDH(k, B) = Bytes(x(k.scalar * B.point)) and the identity is the only error; NewPrivateKey accepts exactly 32-byte strings below n that are non-zero, NewPrivateKeyFromScalar exactly non-zero scalars, NewPublicKey exactly valid SEC 1 encodings (C06) of non-identity points, NewPublicKeyFromPoint exactly non-identity points; an accepted key stores a fresh copy of the scalar / point, the public point d*G and the uncompressed encoding of the stored point; objects of the key types are created and written only inside the two unexported constructors (who-writes over every package); accessors return fresh copies and CompressedBytes / Bytes are functions of the cached encoding (prefix 2 + parity of the last byte)."
 	c.R.Assumptions = []string{"C04 (ScalarMult exact) - symmetry ECDH(a,B) = ECDH(b,A) = x(ab*G) is its consequence and is recorded as derived", "C05 (ScalarBaseMult)", "C06 (strict SEC 1 decoding, encoders)", "C02"}
 }
